@@ -138,4 +138,16 @@ CLAIMED["C05"] = dict(
     note=READER_NOTE + " Partial: equivalence of fixed-form and free-form reading for every statement is not a theorem "
          "(correspondence + end-to-end). Three recorded findings (F10, F11, indented '!' comment).",
     technique="Rocq proof (detector characterisation, both directions) + detector/reader model correspondence + fixed-form rendering search")
+CLAIMED["C15"] = dict(
+    design_ref="DESIGN.md 4 (C15), 3.2",
+    text="Theorems about the reader model: in fixed form, pulling physical lines with handling enabled equals pulling "
+         "them, with handling disabled, from the source in which every sentinel (!$ c$ C$ *$ with both column "
+         "patterns) is replaced by blanks (induction over the source); sentinel lines are comment lines when disabled; "
+         "the free-form initial sentinel becomes blanks of the same width, '!$omp' is left alone; computed instances "
+         "for continued statements in both forms. Tie: reader model == real reader on sentinelised layouts with "
+         "include_omp_conditional_lines. Search: subsets of simple statements hidden behind sentinels: "
+         "tree(enabled)==tree(P), tree(disabled)==tree(P minus S), '!$omp' stays a comment.",
+    note=READER_NOTE + " Partial: the free-form continuation sentinel (state had_omp_sentinels) and whole-statement "
+         "equality are covered by correspondence + end-to-end, not by a theorem.",
+    technique="Rocq proof (sentinel replacement = blanked source, induction over lines) + reader model correspondence + sentinelised-subset search")
 NOT_CLAIMED = {}
